@@ -2,8 +2,8 @@ package interp
 
 import (
 	"fmt"
-	"os"
 	"math/big"
+	"os"
 	"sort"
 	"strings"
 	"time"
@@ -100,6 +100,7 @@ type Ctx struct {
 	MapOrder    bool // explore map iteration orders
 	SchedBudget int  // pre-emption budget for schedule exploration (-1 = deterministic default)
 	preempts    int
+	gomaxprocs  int // value returned by runtime.GOMAXPROCS on this path (0 = not asked yet)
 
 	// accumulated over the run
 	Labels        map[string]int // assertion label -> times reached
@@ -166,6 +167,7 @@ func (c *Ctx) startPath(prefix []int) {
 	c.mapPolicy = -1
 	c.depth = 0
 	c.preempts = 0
+	c.gomaxprocs = 0
 	c.Solver.Push()
 }
 
